@@ -3,7 +3,7 @@
 (* The abstract cassette every cassette type (in-memory, file-based, S3    *)
 (* with any key prefix) must refine: save / fetch / fetch metadata /       *)
 (* fetch unknown / lookup by category + metadata filter + limit / mutate   *)
-(* what was fetched and fetch again.                                       *)
+(* what was fetched and fetch again / save again / copy into a sibling.    *)
 (*                                                                         *)
 (* Recordings are numbered in save order; the harness maps numbers to the  *)
 (* ids each cassette mints.  Data content is a token chosen by the harness *)
@@ -17,7 +17,7 @@ CONSTANTS Cats,        \* categories (may be string prefixes of one another, may
           FilterNames, \* subset of the names understood by FilterDef
           Limits,      \* subset of Nat; 0 stands for "no limit"
           Randoms,     \* subset of BOOLEAN: ordered / random listing
-          Ops,         \* subset of {"get","getmeta","unknown","list","default","mutate","resave","failsave"}
+          Ops,         \* subset of {"get","getmeta","unknown","list","default","mutate","resave","promote","failsave"}
           Probes,      \* subset of BOOLEAN: is the id looked up (get / get-metadata) between create and save?
           MaxSaves, MaxQueries,
           Population   \* sequence of [cat, meta] already saved in the initial state
@@ -74,6 +74,16 @@ Resave(i, m) ==
     /\ ev' = [Ev0 EXCEPT !.kind = "resave", !.id = i, !.cat = saved[i].cat, !.meta = m]
     /\ nq' = nq + 1
 
+\* a fetched recording is saved - with added metadata m - into a *sibling* cassette (another key prefix of the same bucket,
+\* another directory, another in-memory cassette), e.g. to promote a production recording into a regression suite: the
+\* sibling holds the merged copy under the same id, this store does not change
+Promote(i, m) ==
+    /\ "promote" \in Ops /\ nq < MaxQueries
+    /\ i \in 1 .. Len(saved)
+    /\ ev' = [Ev0 EXCEPT !.kind = "promote", !.id = i, !.cat = saved[i].cat, !.meta = m]
+    /\ nq' = nq + 1
+    /\ UNCHANGED saved
+
 \* a save that fails inside the cassette (the recording cannot be serialised): nothing of it is stored, later lookups
 \* and fetches behave as if it had never been attempted
 FailedSave(cat) ==
@@ -116,6 +126,7 @@ Next ==
     \/ \E k \in Ops, i \in 1 .. MaxSaves : Query(k, i)
     \/ \E u \in {"fresh", "prefix", "extension", "othercat"} : GetUnknown(u)
     \/ \E i \in 1 .. MaxSaves, m \in Metas : Resave(i, m)
+    \/ \E i \in 1 .. MaxSaves, m \in Metas : Promote(i, m)
     \/ \E c \in Cats : FailedSave(c)
     \/ \E c \in Cats, fn \in FilterNames, l \in Limits, r \in Randoms : List(c, fn, l, r)
     \/ \E c \in Cats, w \in BOOLEAN, l \in Limits : ListDefault(c, w, l)
